@@ -438,6 +438,7 @@ def units(tier, seed):
     from . import c09
     pick = [c for c in c09.CONFIGS['quick'] if c[0] in ('electricity', 'cogen-topping', 'heat-pump')][: (3 if tier == 'quick' else 6)]
     pick += [c for c in c09.CONFIGS['quick'] if c[4].get('ramey') is False][:1]
+    pick += [c for c in c09.CONFIGS['quick'] if c[4].get('redrill')][:1]       # the redrilling lines of the capital-cost section
     seen = set()
     for (k, L, T, K, x) in pick:
         key = json.dumps([k, L, T, K, x], sort_keys=True)
